@@ -29,6 +29,9 @@ CHECKS = {
  "C09": dict(design="5/C09", technique="TLA+ Layout spec (Injective, shape coverage) evaluated by TLC on every layout the real set-memory-layout pass chooses",
    text="Generated dart.schedule ops (snax_alu/snax_gemmx; any loop order; tiled, sliding-window, reduction, broadcast dims; shapes only partly covered by the schedule; i8..i64) are pushed through the real set-memory-layout in both modes; TLC (ObjCheck.tla ChosenLayout) enumerates the whole operand box of every chosen layout: per-dimension bound products equal the shape and Addr is injective; operands with an explicit layout must leave the IR untouched.",
    note="Operand boxes <= 1500 elements."),
+ "C02": dict(design="5/C02", technique="TLA+ Streamer spec (hardware address generator) and Schedule+Layout spec run in lock step by TLC on the stride patterns emitted by the real scheduling/layout-resolution/stream-lowering passes",
+   text="Generated dart.operations (snax_alu, snax_gemmx matmul) with layouts none / strided+offset / transposed / given 2- and 3-level TSL (with offsets) / compiler-chosen are pushed through the real dart-scheduler, (set-memory-layout), dart-layout-resolution, convert-dart-to-snax-stream. For every operand TLC compares, for every temporal step, the byte set the streamer touches (odometer over ub/ts, ports over ss, 8-byte words, base pointer offset read from the IR) with the byte set of the elements the schedule assigns to that step under the operand's layout (StepCount, StepBytes). Disabled parked streams and zero-pointer streams are not operands and are skipped; declared refusals are counted.",
+   note="Matmul sizes 8..32, boxes <= 36 tiles; streams synthesised for streamers without an operand are only required to be disabled or fed from the zero pointer."),
 }
 NA_REASON = "check not built yet in this round (planned: see DESIGN.md section 5); will be claimed once its TLA+ module and binding exist"
 def main():
